@@ -1,0 +1,127 @@
+//go:build verif
+
+package core
+
+// Verification hooks (build tag "verif").  Every call site is a single added
+// line `verifEvent(...)` placed directly after an observable effect.  With the
+// tag off, verif_hooks_off.go supplies an empty function.
+
+import (
+	"fmt"
+	"os"
+	"os/exec"
+	"strconv"
+	"strings"
+	"sync"
+	"syscall"
+)
+
+// VerifHook, when non-nil, receives one event per observable effect of the
+// runtime, as a kind and a flat key/value list.
+var VerifHook func(ev string, kv ...string)
+
+var (
+	verifMu      sync.Mutex
+	verifSeq     int
+	verifFile    *os.File
+	verifCrashAt int
+	verifSigAt   int
+	verifSig     syscall.Signal
+)
+
+func verifEvent(ev string, kv ...string) {
+	if h := VerifHook; h != nil {
+		h(ev, kv...)
+	}
+}
+
+func verifQuote(buf []byte, s string) []byte {
+	return strconv.AppendQuoteToASCII(buf, s)
+}
+
+// Default sink for separate processes (mrp): one NDJSON line per event,
+// appended with a single write to the file named by VERIF_TRACE.
+// VERIF_CRASH_AT=n kills the process (SIGKILL) right after event n;
+// VERIF_SIGNAL_AT=n:sig sends the process that signal after event n.
+func init() {
+	p := os.Getenv("VERIF_TRACE")
+	if p == "" {
+		return
+	}
+	f, err := os.OpenFile(p, os.O_WRONLY|os.O_CREATE|os.O_APPEND, 0644)
+	if err != nil {
+		return
+	}
+	verifFile = f
+	verifCrashAt, _ = strconv.Atoi(os.Getenv("VERIF_CRASH_AT"))
+	if s := os.Getenv("VERIF_SIGNAL_AT"); s != "" {
+		if i := strings.IndexByte(s, ':'); i > 0 {
+			verifSigAt, _ = strconv.Atoi(s[:i])
+			n, _ := strconv.Atoi(s[i+1:])
+			verifSig = syscall.Signal(n)
+		}
+	}
+	w := "mrp:" + strconv.Itoa(os.Getpid())
+	VerifHook = func(ev string, kv ...string) {
+		verifMu.Lock()
+		defer verifMu.Unlock()
+		verifSeq++
+		buf := make([]byte, 0, 256)
+		buf = append(buf, `{"w":`...)
+		buf = verifQuote(buf, w)
+		buf = append(buf, `,"seq":`...)
+		buf = strconv.AppendInt(buf, int64(verifSeq), 10)
+		buf = append(buf, `,"ev":`...)
+		buf = verifQuote(buf, ev)
+		for i := 0; i+1 < len(kv); i += 2 {
+			buf = append(buf, ',')
+			buf = verifQuote(buf, kv[i])
+			buf = append(buf, ':')
+			buf = verifQuote(buf, kv[i+1])
+		}
+		buf = append(buf, "}\n"...)
+		verifFile.Write(buf)
+		if verifCrashAt > 0 && verifSeq == verifCrashAt {
+			syscall.Kill(os.Getpid(), syscall.SIGKILL)
+			select {}
+		}
+		if verifSigAt > 0 && verifSeq == verifSigAt {
+			syscall.Kill(os.Getpid(), verifSig)
+		}
+	}
+}
+
+func verifMd(md *Metadata, ev string, name MetadataFileName) {
+	if VerifHook != nil {
+		verifEvent(ev, "md", md.path, "fq", md.fqname, "name", string(name))
+	}
+}
+
+func verifSem(s *ResourceSemaphore, ev string, n int64) {
+	if VerifHook != nil {
+		verifEvent(ev, "sem", fmt.Sprintf("%p", s),
+			"n", strconv.FormatInt(n, 10),
+			"reserved", strconv.FormatInt(s.reserved, 10),
+			"cur", strconv.FormatInt(s.curSize, 10),
+			"max", strconv.FormatInt(s.maxSize, 10),
+			"qlen", strconv.Itoa(len(s.waiters)))
+	}
+}
+
+func verifSlot(s *MaxJobsSemaphore, ev string, md *Metadata) {
+	if VerifHook != nil {
+		verifEvent(ev, "sem", fmt.Sprintf("%p", s), "md", md.path,
+			"running", strconv.Itoa(len(s.running)),
+			"limit", strconv.Itoa(s.Limit))
+	}
+}
+
+func verifProc(md *Metadata, ev string, cmd interface{}) {
+	if VerifHook != nil {
+		pid := 0
+		if c, ok := cmd.(*exec.Cmd); ok && c.Process != nil {
+			pid = c.Process.Pid
+		}
+		verifEvent(ev, "md", md.path, "fq", md.fqname, "pid", strconv.Itoa(pid))
+	}
+}
